@@ -640,6 +640,18 @@ function oddProject(rng) {
       return [["entry.ts", `type A<T> = ${body};\nparse.buildParsers<{ E0: A<${rng.pick(["string", "number", "{ k: 1 }"])}> }>();\n`]];
     }
     case 3: {
+      if (rng.chance(1, 3)) {
+        // a circle closed only by DEFAULT imports and `export default <identifier>` (every address on it is a local one), down
+        // to a file that imports its own default export
+        const n = 1 + rng.below(4);
+        const files = [["entry.ts", `import X from "./m0";\nparse.buildParsers<{ E0: ${rng.pick(["X", "typeof X", "X[]", "{ v: typeof X }"])} }>();\n`]];
+        for (let i = 0; i < n; i++) {
+          const next = `./m${(i + 1) % n}`;
+          files.push([`m${i}.ts`, rng.pick([`import X from "${next}";\nexport default X;\n`, `import Y${i} from "${next}";\nexport default Y${i};\n`, `import Z from "${next}";\nexport { Z as default };\n`, `export { default } from "${next}";\n`])]);
+        }
+        if (rng.chance(1, 4)) files[files.length - 1][1] = rng.pick(["type X = string;\nexport default X;\n", "const X = 1;\nexport default X;\n"]);
+        return files;
+      }
       const n = 2 + rng.below(3);
       const files = [["entry.ts", `import { X } from "./m0";\nparse.buildParsers<{ E0: ${rng.pick(["X", "typeof X", "X[]"])} }>();\n`]];
       for (let i = 0; i < n; i++) {
